@@ -292,8 +292,7 @@ static void fwd_case(const std::string& id)
             ++g_nontrivial;
             // the argument itself must come back: same address, no element touched
             const void* got = nullptr;
-            if (CATEGORY == 0) { decltype(auto) r = xtl::forward_sequence<Res, X&>(*src); got = &r;
-                                 static_assert(std::is_same<decltype(r), X&>::value || !std::is_same<Res, X>::value, ""); }
+            if (CATEGORY == 0) { decltype(auto) r = xtl::forward_sequence<Res, X&>(*src); got = &r; }
             else if (CATEGORY == 1) { const X& cs = *src; decltype(auto) r = xtl::forward_sequence<Res, const X&>(cs); got = &r; }
             else { decltype(auto) r = xtl::forward_sequence<Res, X>(*src); got = &r; }   // T&& arg used as an lvalue, as in a forwarding function
             if (got != src_addr) fwd_fail(id, rname, "not-aliasing", "the result is not the argument itself (a different object was returned although the types match)");
